@@ -502,10 +502,17 @@ def _check(ctx, prop, tier, cfg, tcfg, seed, params, known, t_start):
         log('no runs completed: ' + '; '.join(infra)[:3000])
         return 2
     capped = agg.capped
-    if infra:
+    if infra and not viol_map:
         for m in infra[:10]:
             log('INFRA: ' + m)
         return 2
+    if infra:
+        # Some runs did not come back (a changed tree can hang goroutines the scheduler does not
+        # own) while others ended in violations: the violations are confirmed and reported as
+        # usual below; the trouble is listed, and decides the exit status only if no violation
+        # is confirmed.
+        for m in infra[:5]:
+            log('INFRA (besides the violations below): ' + m[:400])
     # --- violations: shrink one representative per signature
     exit_code = 0
     reported = []
@@ -570,6 +577,8 @@ def _check(ctx, prop, tier, cfg, tcfg, seed, params, known, t_start):
         exit_code = 1
     agg.stats['determinism_guard_transient_mismatches'] = guard_transient
     write_evidence(prop, tier, cfg, tcfg, seed, agg, stage_info, reported, guard_n, capped, time.time() - t_start, ctx)
+    if exit_code == 0 and infra:
+        return 2
     if exit_code == 0 and (unconfirmed or guard_mism):
         for sig, n, run in unconfirmed:
             log('INFRA: %s seen in %d batch runs (e.g. run %d) but not when replayed alone in a fresh process' % (sig, n, run))
